@@ -11,8 +11,9 @@ from .spec import Contract
 class CallMixin:
     BUILTINS = {'len', 'range', 'zip', 'enumerate', 'reversed', 'min', 'max', 'abs', 'sum', 'all', 'any',
                 'isinstance', 'iter', 'id', 'super', 'print', 'repr', 'hash', 'cast', 'getattr', 'hasattr', 'sorted',
-                'exit', 'map', 'frozenset', 'next', 'issubclass', 'setattr', 'delattr', 'callable'}
-    SPEC_FUNCS = {'old', 'forall', 'exists', 'implies', 'ite', 'eqv', 'typeis', 'isold', 'isnew', 'len', 'min', 'max',
+                'exit', 'map', 'frozenset', 'next', 'issubclass', 'setattr', 'delattr', 'callable', 'ghost_list',
+                'assume'}
+    SPEC_FUNCS = {'old', 'forall', 'exists', 'forall_ref', 'implies', 'ite', 'eqv', 'typeis', 'isold', 'isnew', 'len', 'min', 'max',
                   'abs', 'isinstance', 'isnone', 'notnone', 'seqeq', 'iff', 'subtype', 'sizeof'}
 
     # ------------------------------------------------------------------------------------------- entry
@@ -438,7 +439,7 @@ class CallMixin:
             self.assume_type(result, rty)
         sf.vars['result'] = result
         sf.alloc_before = alloc_before
-        for post in c.ensures:
+        for post in list(c.ensures) + list(getattr(c, 'assumed_ensures', [])):
             self.assume(self.ev_spec(post, sf))
         return result
 
@@ -489,7 +490,7 @@ class CallMixin:
                         fr.old_heap[k] = v
                         if k not in self.heap:
                             self.heap[k] = v
-            if name in ('forall', 'exists'):
+            if name in ('forall', 'exists', 'forall_ref'):
                 return self.quantifier(name, node, fr)
             if name in self.reg.macros:
                 return self.expand_macro(name, [self.ev(a, fr) for a in node.args], fr)
@@ -570,7 +571,8 @@ class CallMixin:
         if not isinstance(var, ast.Name):
             raise Unsupported("quantifier variable")
         iv = self.fresh_int(var.id)
-        inner = Frame(fr.fi, fr.cls, {var.id: VInt(iv)}, spec=True, parent=fr)
+        is_ref = name == 'forall_ref'
+        inner = Frame(fr.fi, fr.cls, {var.id: (VRef(iv, None, nullable=False) if is_ref else VInt(iv))}, spec=True, parent=fr)
         inner.module = fr.module
         inner.noforks = True
         inner.entry_vars, inner.old_heap = fr.entry_vars, fr.old_heap
@@ -579,6 +581,9 @@ class CallMixin:
         if lo is not None:
             guards.append(iv >= self.as_int(self.ev(lo, fr)))
             guards.append(iv < self.as_int(self.ev(hi, fr)))
+        if is_ref:
+            guards.append(iv > 0)
+            name = 'forall'
         b = zbool_(self.truth(self.ev(body, inner), inner))
         if name == 'forall':
             return VBool(z3.ForAll([iv], z3.Implies(z3.And(guards), b) if guards else b))
@@ -589,6 +594,7 @@ class CallMixin:
         if name == 'len':
             v = args[0]
             if isinstance(v, (VSeq, VView)):
+                self.seq_nonnull(v, fr, node, 'len')
                 return VInt(v.n)
             if isinstance(v, VTuple):
                 return VInt(len(v.items))
@@ -603,6 +609,14 @@ class CallMixin:
             if isinstance(v, VOpaque) and v.tag == 'emptylist':
                 return VInt(0)
             raise Unsupported(f"len of {v!r}")
+        if name == 'ghost_list':
+            return VSeq(z3.IntVal(0), fresh(parse_type(args[0].py), self.fresh_name('ghost'), 1), 'list')
+        if name == 'assume':
+            # explicit assumption inside ghost code: counted and listed in the evidence (never used to hide a failure)
+            g = self.ev_spec(node.args[0].value if isinstance(node.args[0], ast.Constant) else ast.unparse(node.args[0]),
+                             self.spec_env(fr))
+            self.assume(g)
+            return VNone()
         if name == 'range':
             xs = [self.as_int(a) for a in args]
             if len(xs) == 1:
@@ -685,6 +699,8 @@ class CallMixin:
             if isinstance(args[0], VRef):
                 return VInt(args[0].z)
             raise Unsupported("id() of non-object")
+        if name in ('sum', 'len') and isinstance(args[0], VOpaque) and args[0].tag == 'dropped':
+            return VOpaque(None, 'dropped')
         if name == 'sum':
             s = self.iter_source(args[0], fr, node)
             if isinstance(s, VTuple):
